@@ -137,7 +137,7 @@ def _gen_case(seed, tier, index=0):
             opts["holders"] = ["Jane Doe"]
     if rng.chance(0.05):
         opts["holders"] = LONG_HOLDERS[: rng.randint(45, 60)]
-    awkward = rng.randrange(14)
+    awkward = rng.randrange(16)
     if awkward == 0:
         # one holder, several years, given as ready-made notices in ONE invocation (kept verbatim by the tool)
         pfx, h = rng.pick(["Copyright", "SPDX-FileCopyrightText:", "\u00a9", "Copyright (C)"]), rng.pick(A.SAFE_HOLDERS)
@@ -163,6 +163,16 @@ def _gen_case(seed, tier, index=0):
         opts.pop("exclude_year", None)
         if rng.chance(0.5):
             opts.pop("prefix", None)
+    special_content = None
+    if awkward == 3:
+        # a binary or uncommentable file and an explicit --style: the header goes to FILE.license in that style, and the
+        # next run has to find it there
+        name = rng.pick(["m.png", "m.json", "m.bin"])
+        special_content = '{"a": 1}\n' if name == "m.json" else G.BINARY
+        opts["style"] = rng.pick(["python", "c", "html", "cpp", "julia", "lisp"])
+        opts.pop("multi_line", None)
+        opts.pop("template", None)
+        extra = []
     if rng.chance(0.15):
         opts["merge_copyrights"] = True
     if rng.chance(0.1) and foreign_head is None:
@@ -173,6 +183,21 @@ def _gen_case(seed, tier, index=0):
     n = rng.randint(2, 5)
     clocks = _clocks(rng, n)
     case = _case(seed, style, opts, rng.pick(A.BODY_KINDS), name, n, clocks, hashseed=rng.randrange(8), extra_files=extra)
+    if special_content is not None:
+        case["world"]["files"][0]["content"] = special_content
+        case["body"] = "not-text"
+    if awkward == 4 and "/" not in name:
+        # somebody else (xargs -P, make -j, a pre-commit hook) re-runs the same command on ANOTHER file of the directory
+        # while a re-run is under way: both files stay as they were, both commands succeed
+        sib = "sibling" + (G.STYLES[style][7] if use_ext else ".unknownext")
+        case["world"]["files"].append({"path": sib, "content": A.body(style, "code")})
+        steps = case["variants"][0]["steps"]
+        steps.insert(0, {"argv": ["--no-multiprocessing"] + A.argv_of(opts, [sib]), "clock": steps[0]["clock"], "phase": "setup"})
+        reps = [st for st in steps if st.get("phase") == "repeat"]
+        for st in reps[1:]:
+            st["mutations"] = [{"at": {"mut_index": rng.randrange(0, 3)}, "do": {"op": "run", "argv": ["--no-multiprocessing"] + A.argv_of(opts, [sib])}}]
+        case["names"] = [name, sib]
+        case["body"] = "concurrent-sibling"
     if foreign_head is not None and not opts.get("force_dot_license"):
         case["world"]["files"][0]["content"] = G.comment(style, foreign_head, multi=not G.can_single(style)) + "\n\n" + G.body_for(style)
         case["body"] = "foreign-notices"
